@@ -27,7 +27,8 @@ def policy : Region → List Cls
       [.MalformedInputError, .ParsingError, .BrokenObjectLinkError, .RedundantParameterSpecification,
        .ParticleTypeNotInProblem, .ParticleTypeNotInCell, .UnknownElement, .IllegalState, .ValueError, .UnicodeDecodeError]
   | .parseInputInner =>
-      [.MalformedInputError, .ParsingError, .NumberConflictError, .BrokenObjectLinkError, .UnsupportedFeature, .UnknownElement]
+      [.MalformedInputError, .ParsingError, .NumberConflictError, .BrokenObjectLinkError, .UnsupportedFeature, .UnknownElement,
+       .TypeError]
   | .parseInputOuter =>
       [.MalformedInputError, .ParsingError, .BrokenObjectLinkError, .UnsupportedFeature, .FileNotFoundError]
   | .uipLoadData => [.MalformedInputError, .ParsingError, .BrokenObjectLinkError]
@@ -679,13 +680,14 @@ theorem C13_deliberate_is_documented :
 def C13_any_class_statement : Prop :=
   ∀ (file : List Item), (readInput .check file).final = .returned
 
-/-- **C13_any_class_refuted.** It does not hold: a class outside ValueError that no handler names (a TypeError or
-    AttributeError thrown by the runtime in a constructor, after the guarded parse) passes every layer in both modes.
+/-- **C13_any_class_refuted.** It does not hold: a class outside ValueError and TypeError that no handler names (an
+    AttributeError, IndexError or KeyError thrown by the runtime in a constructor, after the guarded parse) passes every
+    layer in both modes.
     The mapping layer cannot make *every* Python exception deliberate; which expressions throw is explored on the real
     code (known findings C13-F*). -/
 theorem C13_any_class_refuted : ¬ C13_any_class_statement := by
   intro h
-  have := h [.input .other (some ⟨.ctor, .TypeError⟩)]
+  have := h [.input .other (some ⟨.ctor, .AttributeError⟩)]
   revert this
   decide
 
@@ -702,7 +704,13 @@ theorem C13_any_class_partial :
   have hflush : flushInput .ValueError = .yieldInput := by decide
   simp [readInput, readItems, stepItem, hflush, innerHandle, outerHandle, outcome, h1, h2]
 
-example : handled .parseInputInner (constructClass ⟨.ctor, .TypeError⟩) = false
-    ∧ handled .parseInputOuter (constructClass ⟨.ctor, .TypeError⟩) = false := by decide
+example : handled .parseInputInner (constructClass ⟨.ctor, .AttributeError⟩) = false
+    ∧ handled .parseInputOuter (constructClass ⟨.ctor, .AttributeError⟩) = false := by decide
+
+/-- a TypeError raised while one input is built (explicit, like `Mode particle must be a str`, or thrown by the
+    runtime) is taken by the per-input handler: a warning in check mode, re-raised unchanged in normal mode -/
+example : (readInput .check [.input .mode (some ⟨.ctor, .TypeError⟩)]).final = .returned
+    ∧ (readInput .normal [.input .mode (some ⟨.ctor, .TypeError⟩)]).final = .raised .TypeError (some .parseInputInner) := by
+  decide
 
 end MontePyVerif.Errors
